@@ -547,13 +547,13 @@ def _is_user_like(c: ast.Call) -> bool:
 
 
 def run(ctx: Context, R: Reporter):
-    rule_a(ctx, R)
-    rule_b(ctx, R)
-    rule_c(ctx, R)
-    rule_d(ctx, R)
-    rule_e(ctx, R)
-    rule_f(ctx, R)
-    rule_g(ctx, R)
+    R.guard(rule_a, ctx, R)
+    R.guard(rule_b, ctx, R)
+    R.guard(rule_c, ctx, R)
+    R.guard(rule_d, ctx, R)
+    R.guard(rule_e, ctx, R)
+    R.guard(rule_f, ctx, R)
+    R.guard(rule_g, ctx, R)
 
 
 def variants():
